@@ -1654,6 +1654,8 @@ def _do_function(func, args, kwargs):
         if func is numpy.empty_like:
             return PROXY.empty(shp, dtype=dt)
         return PROXY.full(shp, args[1] if len(args) > 1 else kwargs["fill_value"], dtype=dt)
+    if func is numpy.diag_indices_from:
+        return numpy.diag_indices(raw(args[0]).shape[0], raw(args[0]).ndim)
     if func is numpy.may_share_memory or func is numpy.shares_memory:
         return func(*[raw(a) for a in args], **kwargs)
     if func is numpy.result_type:
